@@ -75,15 +75,17 @@ def render_class(name, c, names):
         elif r == "staticmember":
             L.append("  static %s s%d;" % (names[j], j))
     # spellings of the virtual function, the same style for all classes of one program
-    style = int(name[1:name.index("_")]) % 3
-    par, opar = [("", ""), ("int x", "const int x"), ("", "")][style]
-    osfx = ["override", "override", "noexcept override"][style]
+    style = int(name[1:name.index("_")]) % 4
+    par, opar = [("", ""), ("int x", "const int x"), ("", ""), ("", "")][style]
+    osfx = ["override", "override", "noexcept override", ""][style]
     # style 2: every class after the first declares f noexcept (an overrider may be stricter, never looser)
     nx = " noexcept" if (style == 2 and not name.endswith("_C1")) else ""
     if c["vf"] == "virt":
         L.append("  virtual void f(%s)%s;" % (par, nx))
     elif c["vf"] == "pure":
         L.append("  virtual void f(%s)%s = 0;" % (par, nx))
+    elif c["vf"] == "over" and style == 3:
+        L.append("  auto f(%s) -> void;" % opar)       # style 3: the overrider is written with a trailing return type
     elif c["vf"] == "over":
         L.append("  void f(%s) %s;" % (opar, osfx))
     elif c["vf"] == "overc":
@@ -106,6 +108,23 @@ PROBES = [
     ("const-member-of-typedefd-class", "struct @_C1 { @_C1(); }; typedef @_C1 @_t; struct @_C2 { const @_t m; };", 2, "C10-const-member-shapes"),
     ("const-member-control", "struct @_C1 { @_C1(); }; struct @_C2 { const @_C1 m; }; struct @_C3 { const int x = 1; const int y{2}; };", 3, None),
     ("defaulted-destructor", "struct @_C1 { ~@_C1() = delete; }; struct @_C2 { ~@_C2() = default; @_C1 m; }; struct @_C3 { ~@_C3() = default; };", 3, None),
+    # a NON-virtual diamond has two sub-objects of the top class: the pure virtual of the arm that does not override
+    # stays pure, whatever the other arm does (each of these is decided by g++)
+    ("nonvirtual-diamond-one-arm-overrides",
+     "struct @_C1 { virtual void f() = 0; }; struct @_C2 : public @_C1 { void f() override; }; "
+     "struct @_C3 : public @_C1 { }; struct @_C4 : public @_C2, public @_C3 { }; struct @_C5 : public @_C4 { };", 5, None),
+    ("nonvirtual-diamond-both-arms-override",
+     "struct @_C1 { virtual void f() = 0; }; struct @_C2 : public @_C1 { void f() override; }; "
+     "struct @_C3 : public @_C1 { void f() override; }; struct @_C4 : public @_C2, public @_C3 { };", 4, None),
+    ("nonvirtual-diamond-bottom-overrides",
+     "struct @_C1 { virtual void f() = 0; }; struct @_C2 : public @_C1 { }; "
+     "struct @_C3 : public @_C1 { }; struct @_C4 : public @_C2, public @_C3 { void f() override; };", 4, None),
+    ("two-unrelated-pure-bases-one-overridden",
+     "struct @_C1 { virtual void f() = 0; }; struct @_C2 { virtual void f() = 0; }; struct @_C3 : public @_C1 { void f() override; }; "
+     "struct @_C4 : public @_C3, public @_C2 { }; struct @_C5 : public @_C3, public @_C2 { void f() override; };", 5, None),
+    ("trailing-return-overrider",
+     "struct @_C1 { virtual void f() = 0; virtual int g(int) const = 0; }; struct @_C2 : public @_C1 { auto f() -> void; auto g(int) const -> int; }; "
+     "struct @_C3 : public @_C1 { auto f() -> void; };", 3, None),
     ("virtual-base-spellings", "struct @_C1 { }; struct @_C2 : virtual @_C1 { }; class @_C3 : virtual public @_C1 { }; struct @_C4 : public virtual @_C1 { };", 4, None),
 ]
 
